@@ -154,3 +154,8 @@ func VerifC07_HTTPTextMpubBodies() { verifrt.Atomic(verifC10MpubText) }
 // Envelope on every channel: the topic pump hands every channel a message with the same id, body
 // and publish timestamp (real topic pump, 1-3 channels).
 func VerifC07_FanOutEnvelope() { verifTopicPumpFanOut() }
+
+// PUB / DPUB / MPUB store exactly the bytes after the length prefix, whether the bytes arrive in
+// one piece or one per read (shared with C09).
+func VerifC07_PublishBodyExact()      { verifrt.Atomic(verifC09PubFraming) }
+func VerifC07_MultiPublishBodyExact() { verifrt.Atomic(verifC09Mpub) }
